@@ -110,7 +110,7 @@ Proof. exact lex_tok_app. Qed.
 Example C33_relex_lists_nonvacuous :
   let ts := tokenize (s2l "function f(a1,b){let x = a1 + +b - 1.5e3/2 ; return x>>>=2, x!==b ? x-- : b++ +a1 .5}") in
   wf [] ts = true /\ List.length (strip_ws ts) = 39%nat /\
-  emit true ts = s2l "function f(a1,b){let x=a1+ +b-1.5e3/2;return x>>>=2,x!==b?x--:b++ +a1 .5}".
+  emit true ts = s2l "function f(a1,b){let x=a1+ +b-1.5e3/2;return x>>>=2,x!==b?x--:b++ +a1.5}".
 Proof. vm_compute. repeat split; reflexivity. Qed.
 
 (* ... and it does not hold for all producible pairs: the lexer's own view of "c ? .5" is not preserved
